@@ -82,6 +82,7 @@ type SpecFun struct {
 	Name   string
 	Params []string
 	Body   *Expr
+	Inline bool // "macro": always expanded in place, never turned into a named function
 }
 
 type UFun struct {
@@ -246,7 +247,7 @@ func (db *SpecDB) LoadSpecFile(path string) error {
 			}
 			db.Consts[f[0]] = f[1]
 			cur = nil
-		case "fun":
+		case "macro", "fun":
 			eq := strings.Index(rest, "=")
 			// find the '=' that follows the closing paren of the parameter list
 			cp := strings.Index(rest, ")")
@@ -262,7 +263,7 @@ func (db *SpecDB) LoadSpecFile(path string) error {
 			if err != nil {
 				return fail(err)
 			}
-			db.Funs[name] = &SpecFun{Name: name, Params: params, Body: body}
+			db.Funs[name] = &SpecFun{Name: name, Params: params, Body: body, Inline: kw == "macro"}
 			cur = nil
 		case "axiom":
 			c, err := parseClause(rest)
@@ -376,7 +377,7 @@ func (db *SpecDB) LoadSpecFile(path string) error {
 	return nil
 }
 
-var keywords = map[string]bool{"functype": true, "global": true, "func": true, "extern": true, "method": true, "ufun": true, "fun": true, "axiom": true, "const": true,
+var keywords = map[string]bool{"macro": true, "functype": true, "global": true, "func": true, "extern": true, "method": true, "ufun": true, "fun": true, "axiom": true, "const": true,
 	"requires": true, "ensures": true, "panics": true, "assigns": true, "loop": true, "property": true, "inline": true, "pure": true,
 	"nosafety": true, "opaque": true, "params": true, "results": true, "calls": true, "frameprop": true, "trusted": true}
 
